@@ -796,7 +796,10 @@ def surface_common_base(r, adds, nons, with_depth=None):
     p = {}
     if r.random() < 0.8:
         p["area"] = pick(r, 5, 20, 100)
-    if with_depth and r.random() < 0.8:
+    # the soil depth is always given as an exact number: with the library's float defaults (0.75 * 0.4) the restore step
+    # depth / total_porosity * total_porosity of PerviousSurface.apply_overrides is subject to float rounding, which is
+    # outside the exact-arithmetic reading of "exactly"
+    if with_depth and (r.random() < 0.8 or with_depth in ("depth", "rooting_depth")):
         p[with_depth] = pick(r, F(1, 2), F(3, 4), 1) if with_depth != "pore_depth" else pick(r, 0, F(1, 100), F(1, 20))
     if r.random() < 0.6:
         p["pollutant_load"] = {r.choice(adds): pick(r, 0, F(1, 100), F(1, 10))}
@@ -1170,26 +1173,45 @@ def apply(obj, o, sigs, problems, label):
 # ---------------------------------------------------------------------------
 # one case
 # ---------------------------------------------------------------------------
-def gen_case(r, key, spec, polset):
+def override_keys(spec, polset):
+    """names of the overridable parameters of a component (for the systematic part of the plan)"""
+    import random
     NG.set_pollutants(polset)
     from wsimod.core import constants
     adds, nons = list(constants.ADDITIVE_POLLUTANTS), list(constants.NON_ADDITIVE_POLLUTANTS)
-    for _ in range(20):
+    r = random.Random(0)
+    keys = set()
+    for _ in range(6):
+        p = spec["base"](r, adds, nons)
+        keys |= set(spec["over"](r, adds, nons, p))
+    return sorted(keys)
+
+
+def gen_case(r, key, spec, polset, select="random"):
+    """select: "random" subset, "all" overridable parameters, or ("single", name)"""
+    NG.set_pollutants(polset)
+    from wsimod.core import constants
+    adds, nons = list(constants.ADDITIVE_POLLUTANTS), list(constants.NON_ADDITIVE_POLLUTANTS)
+    for _ in range(40):
         p = spec["base"](r, adds, nons)
         cand = spec["over"](r, adds, nons, p)
         ks = sorted(cand)
         mode = r.random()
         if not ks:
             sel = []
-        elif mode < 0.15:
+        elif select == "all":
             sel = ks
-        elif mode < 0.5:
+        elif isinstance(select, (tuple, list)):
+            if select[1] not in cand and _ < 39:
+                continue
+            sel = [select[1]] if select[1] in cand else [r.choice(ks)]
+        elif mode < 0.3:
             sel = [r.choice(ks)]
         else:
             sel = r.sample(ks, r.randint(1, min(len(ks), 5)))
         o1 = {k: cand[k] for k in sel}
         o2 = None
-        if ks and r.random() < 0.3:
+        if ks and select == "random" and r.random() < 0.4:
             cand2 = spec["over"](r, adds, nons, p)
             o2 = {k: cand2[k] for k in r.sample(ks, r.randint(1, min(len(ks), 3)))}
         ok = spec.get("require", lambda p, o: True)
@@ -1197,6 +1219,48 @@ def gen_case(r, key, spec, polset):
             break
     script = spec["script"](r, spec["cls"])
     return {"key": key, "polset": polset, "params": p, "overrides": [o1] + ([o2] if o2 else []), "script": script}
+
+
+def forced_cases(r, specs):
+    """fixed parameter / override combinations: one per known defect (so that each is looked for in every run) and the
+    couplings between parameters and derived quantities"""
+    simple_adds = POLSET_ADDS("simple")
+    soil = {k: F(1) for k in ("phosphate", "ammonia", "nitrate", "nitrite", "org-nitrogen", "org-phosphorus")}
+    grow = dict(copy.deepcopy(GROW_CROP), rooting_depth=F(1, 2), area=F(20), initial_storage="vq", monthly=True, initial_soil_storage=soil)
+    out = [
+        ("node:Demand", "simple", {"constant_demand": F(3)}, [{"pollutant_load": {"phosphate": F(1, 4)}}]),
+        ("node:ResidentialDemand", "simple", {"population": F(10), "per_capita": F(1, 8)}, [{"pollutant_load": {"phosphate": F(1, 100), "temperature": F(15)}}]),
+        ("surface:ImperviousSurface", "simple", {"area": F(20), "pore_depth": F(1, 100)}, [{"pollutant_load": {"phosphate": F(1, 50)}, "decays": decays_of(r, simple_adds)}]),
+        ("surface:PerviousSurface", "four", {"area": F(20), "depth": F(1, 2), "initial_storage": "vq"}, [{"total_porosity": F(1, 2)}]),
+        ("surface:PerviousSurface", "simple", {"area": F(20), "depth": F(3, 4), "total_porosity": F(2, 5), "initial_storage": "vq"}, [{"field_capacity": F(7, 20), "area": F(12)}]),
+        ("surface:PerviousSurface", "one", {"area": F(50), "depth": F(1), "initial_storage": "vq"}, [{"depth": F(1, 2)}, {"wilting_point": F(1, 20)}]),
+        ("surface:GrowingSurface", "default", dict(grow), [{"total_porosity": F(1, 2)}, {"crop_cover_max": F(1, 2)}]),
+        ("surface:IrrigationSurface", "default", dict(grow), [{"irrigation_coefficient": F(1, 2), "rooting_depth": F(3, 4)}]),
+        ("tank:DecayTank", "simple", {"capacity": F(50), "initial_storage": "vq"}, [{"decays": decays_of(r, simple_adds)}]),
+        ("tank:DecayQueueTank", "simple", {"capacity": F(50)}, [{"decays": decays_of(r, simple_adds)}]),
+        ("pool:NutrientPool", "default", {}, [{k: {"N": v[0] * 3} for k, v in POOL_DICTS.items()}]),
+        ("node:Distribution", "simple", {"leakage": F(1, 10)}, [{"leakage": F(1, 5)}]),
+        ("node:Distribution", "four", {"leakage": F(1, 4)}, [{"leakage": F(0)}]),
+        ("node:UnlimitedDistribution", "simple", {}, [{"leakage": F(1, 5)}]),
+        ("node:QueueGroundwater", "simple", {"capacity": F(50), "area": F(2), "initial_storage": "vq"}, [{"capacity": F(120)}]),
+        ("node:River", "simple", {"initial_storage": "vq"}, [{"damp": F(1, 5), "length": F(300)}]),
+        ("node:WTW", "simple", {}, [{"liquor_multiplier": {"volume": F(1, 10)}}]),
+        ("node:WWTW", "four", {"percent_solids": F(1, 100)}, [{"liquor_multiplier": {"volume": F(1, 5)}}, {"stormwater_storage_capacity": F(0)}]),
+        ("node:FWTW", "one", {}, [{"percent_solids": F(1, 50)}, {"liquor_multiplier": {"volume": F(1, 25)}}]),
+        ("node:Storage", "simple", {"capacity": F(50), "area": F(2), "initial_storage": "vq"}, [{"capacity": F(5)}]),
+        ("node:Sewer", "simple", {"capacity": F(10)}, [{"capacity": F(80), "pipe_time": 1}]),
+        ("node:Land", "simple", {}, [{"surface_residence_time": F(3)}]),
+    ]
+    cases = []
+    for key, polset, p, ovs in out:
+        NG.set_pollutants(polset)
+        cases.append({"key": key, "polset": polset, "params": p, "overrides": ovs, "script": specs[key]["script"](r, specs[key]["cls"])})
+    NG.set_pollutants("default")
+    return cases
+
+
+def POLSET_ADDS(name):
+    return list(NG.POLSETS[name][0])
 
 
 def case_json(case):
@@ -1365,7 +1429,7 @@ def run(rep, thorough):
     t0 = time.time()
     seen = set()
     r = C.rng("c15")
-    mon = {"cases": 0, "classes": {}, "violations": 0, "known": {}, "nontrivial": 0, "override_keys": 0, "two_step_sequences": 0}
+    mon = {"cases": 0, "forced_cases": 0, "classes": {}, "violations": 0, "known": {}, "nontrivial": 0, "override_keys": 0, "two_step_sequences": 0}
     try:
         controls = get_controls()
     except Exception as ex:
@@ -1383,33 +1447,44 @@ def run(rep, thorough):
         rep.notes.append(f"C15: default arguments already modified when the monitor started: {[k for k, _ in start]} (restored)")
         heal(start, pristine)
     specs = make_specs()
-    per = 14 if thorough else 3
+    nrand, cap = (10, 1000) if thorough else (2, 5)
     nviol = 0
+
+    def account(case, idx, forced=False):
+        nonlocal nviol, seen
+        key, polset = case["key"], case["polset"]
+        out = run_case(case, specs, controls, pristine)
+        mon["cases"] += 1
+        mon["forced_cases"] += forced
+        mon["classes"][key] = mon["classes"].get(key, 0) + 1
+        mon["override_keys"] += sum(len(o) for o in case["overrides"])
+        mon["two_step_sequences"] += len(case["overrides"]) > 1
+        mon["nontrivial"] += out["nontrivial"]
+        for sg in out["sigs"]:
+            mon["known"][sg] = mon["known"].get(sg, 0) + 1
+        seen |= out["sigs"]
+        rep.add_eval(("c15", key, idx, forced), nontrivial=out["nontrivial"] and not out["problems"])
+        if out["problems"]:
+            mon["violations"] += 1
+            nviol += 1
+            if nviol <= 3:
+                rep.violation("counterexample", f"{PID} monitor: {key} ({polset} pollutants) built with {short_json(case['params'])}, overrides "
+                              f"{short_json(case['overrides'])}: " + " || ".join(out["problems"][:3]), {"case": case_json(case)}, True)
+        elif len(rep.samples) < 2 and out["nontrivial"] and not forced:
+            rep.samples.append({"class": key, "polset": polset, "params": case_json(case)["params"], "overrides": case_json(case)["overrides"],
+                                "script_ops": sum(len(d) for d in case["script"]), "known": sorted(out["sigs"])})
+
     try:
+        for idx, case in enumerate(forced_cases(r, specs)):
+            account(case, idx, True)
         for key in sorted(specs):
             spec = specs[key]
-            for i in range(per):
-                polset = r.choice(spec.get("polsets", ["simple", "four", "reordered", "one", "default"]))
-                case = gen_case(r, key, spec, polset)
-                out = run_case(case, specs, controls, pristine)
-                mon["cases"] += 1
-                mon["classes"][key] = mon["classes"].get(key, 0) + 1
-                mon["override_keys"] += sum(len(o) for o in case["overrides"])
-                mon["two_step_sequences"] += len(case["overrides"]) > 1
-                mon["nontrivial"] += out["nontrivial"]
-                for s in out["sigs"]:
-                    mon["known"][s] = mon["known"].get(s, 0) + 1
-                seen |= out["sigs"]
-                rep.add_eval(("c15", key, i), nontrivial=out["nontrivial"] and not out["problems"])
-                if out["problems"]:
-                    mon["violations"] += 1
-                    nviol += 1
-                    if nviol <= 3:
-                        rep.violation("counterexample", f"{PID} monitor: {key} ({polset} pollutants) built with {short_json(case['params'])}, overrides "
-                                      f"{short_json(case['overrides'])}: " + " || ".join(out["problems"][:3]), {"case": case_json(case)}, True)
-                elif len(rep.samples) < 2 and out["nontrivial"]:
-                    rep.samples.append({"class": key, "polset": polset, "params": case_json(case)["params"], "overrides": case_json(case)["overrides"],
-                                        "script_ops": sum(len(d) for d in case["script"]), "known": sorted(out["sigs"])})
+            polsets = spec.get("polsets", ["simple", "four", "reordered", "one", "default"])
+            keys = override_keys(spec, polsets[-1])
+            r.shuffle(keys)
+            plan = ["all"] + [("single", k) for k in keys[:cap]] + ["random"] * nrand
+            for i, select in enumerate(plan):
+                account(gen_case(r, key, spec, r.choice(polsets), select), i)
     finally:
         uninstall_exact()
         NG.set_pollutants("default")
